@@ -640,6 +640,37 @@ pub fn views(args: &[String]) -> i32 {
         }
     )* } }
     each!(u8, i8, u16, i16, u32, i32, u64, i64, usize, isize, f32, f64, View16);
+    // the same Export / ReadView / Import steps of SliceView.tla on strings whose BYTE length differs from their character count
+    // (the behaviours above use ASCII contents): pointer, length in bytes and contents survive both directions
+    for s in ["h\u{e9}llo", "\u{e9}", "a\u{1f600}", "\u{20ac}\u{20ac}x", "gr\u{fc}\u{df} dich", "\u{10348}"] {
+        let owned: Box<str> = s.into();
+        let checks: [(&str, usize, *const u8, Vec<u8>); 2] = {
+            let v = DiplomatUtf8StrSlice::from(&*owned);
+            let via_deref: &str = &v;
+            let a = ("Export+ReadView (borrowed)", via_deref.len(), via_deref.as_ptr(), via_deref.as_bytes().to_vec());
+            let back: &str = <&str>::from(DiplomatUtf8StrSlice::from(&*owned));
+            let b = ("Export+Import (borrowed)", back.len(), back.as_ptr(), back.as_bytes().to_vec());
+            [a, b]
+        };
+        for (what, len, ptr, bytes) in checks {
+            n += 1;
+            if len != s.len() || ptr != owned.as_ptr() || bytes != s.as_bytes() {
+                bad += 1;
+                out.line(&json!({"step": 1, "op": what, "what": "non-ASCII string changed on its way through the view", "elem": "str",
+                                 "expected": {"len": s.len(), "contents": s.as_bytes()}, "observed": {"len": len, "contents": bytes, "same_pointer": ptr == owned.as_ptr()}}));
+            }
+        }
+        let p0 = owned.as_ptr();
+        let ov = DiplomatOwnedUTF8StrSlice::from(owned);
+        let (l1, same1) = { let r: &str = &ov; (r.len(), r.as_ptr() == p0) };
+        let b2: Box<str> = ov.into();
+        n += 1;
+        if l1 != s.len() || !same1 || &*b2 != s || b2.as_ptr() != p0 {
+            bad += 1;
+            out.line(&json!({"step": 1, "op": "Export+Import (owned)", "what": "non-ASCII string changed on its way through the view", "elem": "str",
+                             "expected": {"len": s.len()}, "observed": {"len": l1, "same_pointer": same1, "back": &*b2}}));
+        }
+    }
     out.finish();
     println!("{}", json!({"replayed": n, "mismatches": bad}));
     0
